@@ -408,8 +408,10 @@ def run(ctx, args):
     cases = [("fixed", s) for s in FIXED + VALID] + [("regression", s) for s in REGRESSION if s not in FIXED]
     # resource limits: a number literal one digit beyond / at int's limit; nesting far beyond the recursion limit
     lim = sys.get_int_max_str_digits()
+    # (a literal of exactly `lim` digits parses; it is exercised on the implementation in direct_search only:
+    # printing a 4300-digit number out of Coq takes minutes)
     cases += [("long-number", "a[" + "1" * (lim + 1) + "]"), ("long-number", "a[@k=" + "٣" * (lim + 1) + "]"),
-              ("long-number", "a[" + "1" * lim + "]")]
+              ("long-number", "a[" + "9" * 300 + "]")]
     cases += [("overflow", "a[" + "(" * NESTING_OVERFLOW + "1" + ")" * NESTING_OVERFLOW + "]"),
               ("overflow", "a" + "[b" * NESTING_OVERFLOW + "]" * NESTING_OVERFLOW)]
     cases += [("nesting", "a[" + "(" * d + "1" + ")" * d + "]") for d in (10, 60)]
